@@ -327,7 +327,7 @@ Section ReaderRoot.
     destruct H as (K & Hk & [A B D E]).
     assert (H0 : RR k {| wfp := wfp r; pfw := pfw r; mvf := mvf r; calls := calls r; pend := None |}).
     { split; [exact K|]. split; [exact Hk|]. constructor; simpl; auto. intros ? ? Hx. discriminate Hx. }
-    destruct (is_moved_to (k_mask e) && N.eqb (k_cookie e) c); [inversion Hs; subst; exact H0|].
+    destruct (is_moved_to (k_mask e) && N.eqb (k_cookie e) c && amem N.eqb (k_wd e) (pfw r)); [inversion Hs; subst; exact H0|].
     eapply forget_tree_rr; [| |exact H0|exact Hs].
     - eapply pi_pend; eauto.
     - eapply E; eauto.
